@@ -90,9 +90,14 @@ func IsSpecialPayload(str string) bool {
 // IsChunkEncoding checks for streaming/unsigned authorization types
 func IsStreamingPayload(str string) bool {
 	pt := payloadType(str)
+	// the ECDSA (SigV4A) framings are streaming payloads as well: they
+	// have to reach NewChunkReader to be refused as not supported, the
+	// body would be stored with its framing otherwise
 	return pt == payloadTypeStreamingUnsignedTrailer ||
 		pt == payloadTypeStreamingSigned ||
-		pt == payloadTypeStreamingSignedTrailer
+		pt == payloadTypeStreamingSignedTrailer ||
+		pt == payloadTypeStreamingEcdsa ||
+		pt == payloadTypeStreamingEcdsaTrailer
 }
 
 func NewChunkReader(ctx *fiber.Ctx, r io.Reader, authdata AuthData, region, secret string, date time.Time, debug bool) (io.Reader, error) {
